@@ -25,7 +25,7 @@ for pid in props:
 na = [{"property_id": p, "reason": NOT_APPLICABLE[p]} for p in props if p not in CHECKS]
 m = {
     "version": 1,
-    "setup_cmd": "cd /verif/coq && coq_makefile -f _CoqProject -o Makefile && timeout 3000 make -j16",
+    "setup_cmd": "bin/setup",
     "hooks": {
         "guard": "verif",
         "enable": "go build/test -tags verif (harness module /verif/harness, replace => /repo)",
